@@ -41,8 +41,8 @@ static std::string runDirect(GEOSContextHandle_t h, const Geometry* g, const std
         if (out) out->count(std::string("outtype_") + ((Geometry*) o)->getGeometryType());
         GEOSGeom_destroy_r(h, o);
     } else if (out) out->count("out_null");
-    if (out) { out->count(std::string("method_") + (method == 0 ? "L" : "S") + std::to_string(keep)); out->count("outvalid_" + ov); out->count("idem_" + idem); }
-    return "M | " + inToks + " | " + outToks + " | method=" + (method == 0 ? "L" : "S") + " keep=" + std::to_string(keep) + " ov=" + ov + " idem=" + idem;
+    if (out) { out->count(std::string("method_") + (method == 0 ? "L" : "S") + (keep != 0 ? "1" : "0")); if (keep != 0 && keep != 1) out->count("keep_raw_other"); out->count("outvalid_" + ov); out->count("idem_" + idem); }
+    return "M | " + inToks + " | " + outToks + " | method=" + (method == 0 ? "L" : "S") + " keep=" + (keep != 0 ? "1" : "0") + " ov=" + ov + " idem=" + idem + " kraw=" + std::to_string(keep);
 }
 
 // watchdog for calls that never return: the first alarm asks GEOS to interrupt, the second gives up on the process
@@ -62,12 +62,41 @@ static std::string runOne(GEOSContextHandle_t h, const Geometry* g, const std::s
         if (pr > 0) { char buf[65536]; ssize_t k = read(fd[0], buf, sizeof buf); if (k <= 0) break; res.append(buf, (size_t) k); }
         else if (waited >= 5000) { timedOut = true; break; } }
     close(fd[0]); if (timedOut) kill(pid, SIGKILL); int st = 0; waitpid(pid, &st, 0);
-    std::string cfg = std::string(" | method=") + (method == 0 ? "L" : "S") + " keep=" + std::to_string(keep);
-    if (timedOut) { if (out) out->count("timeout"); return "M | " + inToks + " | TIMEOUT" + cfg + " ov=- idem=-"; }
-    if (res.empty() || !WIFEXITED(st) || WEXITSTATUS(st) != 0) { if (out) out->count("child_crash"); return "M | " + inToks + " | CRASH" + cfg + " ov=- idem=-"; }
-    if (out) { out->count(std::string("method_") + (method == 0 ? "L" : "S") + std::to_string(keep)); out->count("forked_nonfinite"); }
+    std::string cfg = std::string(" | method=") + (method == 0 ? "L" : "S") + " keep=" + (keep != 0 ? "1" : "0");
+    if (timedOut) { if (out) out->count("timeout"); return "M | " + inToks + " | TIMEOUT" + cfg + " ov=- idem=- kraw=" + std::to_string(keep); }
+    if (res.empty() || !WIFEXITED(st) || WEXITSTATUS(st) != 0) { if (out) out->count("child_crash"); return "M | " + inToks + " | CRASH" + cfg + " ov=- idem=- kraw=" + std::to_string(keep); }
+    if (out) { out->count(std::string("method_") + (method == 0 ? "L" : "S") + (keep != 0 ? "1" : "0")); out->count("forked_nonfinite"); }
     return res;
 }
+
+// C17's own families (on top of the C05 generators): collapsing elements inside collections and at every position of a
+// MultiLineString (the keep-collapsed clause), self-touching rings for the linework method.  The lattice map of the generator is
+// applied to them like to every other input.
+static const Tmpl C17_TEMPLATES[] = {
+    {"c17_coll_collapsed_line", "GEOMETRYCOLLECTION(LINESTRING(3 4,3 4))"},
+    {"c17_coll_collapsed_line_mixed", "GEOMETRYCOLLECTION(LINESTRING(0 0,5 5),LINESTRING(2 2,2 2),POINT(1 1))"},
+    {"c17_coll_collapsed_polygon", "GEOMETRYCOLLECTION(POLYGON((0 0,4 4,8 8,0 0)),POINT(9 1))"},
+    {"c17_coll_point_polygon", "GEOMETRYCOLLECTION(POLYGON((2 2,2 2,2 2,2 2)),LINESTRING(0 0,1 0))"},
+    {"c17_coll_collapsed_ring", "GEOMETRYCOLLECTION(LINEARRING(1 1,1 1,1 1,1 1),POINT(4 4))"},
+    {"c17_coll_short_ring", "GEOMETRYCOLLECTION(LINEARRING(1 1,5 5,1 1,1 1))"},
+    {"c17_coll_nested", "GEOMETRYCOLLECTION(GEOMETRYCOLLECTION(LINESTRING(7 7,7 7)),LINESTRING(0 0,1 0))"},
+    {"c17_coll_multiline_collapsed", "GEOMETRYCOLLECTION(MULTILINESTRING((1 1,1 1),(0 0,3 3)))"},
+    {"c17_coll_multipolygon_collapsed", "GEOMETRYCOLLECTION(MULTIPOLYGON(((0 0,4 4,8 8,0 0)),((10 0,14 0,14 4,10 0))))"},
+    {"c17_mline_collapsed_first", "MULTILINESTRING((1 1,1 1),(0 0,3 3),(4 0,6 0))"},
+    {"c17_mline_collapsed_middle", "MULTILINESTRING((0 0,3 3),(1 5,1 5),(4 0,6 0))"},
+    {"c17_mline_collapsed_last", "MULTILINESTRING((0 0,3 3),(4 0,6 0),(1 5,1 5))"},
+    {"c17_mline_collapsed_two", "MULTILINESTRING((2 2,2 2),(0 0,3 3),(1 5,1 5))"},
+    {"c17_mline_collapsed_before_last_line", "MULTILINESTRING((0 0,3 3),(2 7,2 7),(4 0,6 0),(5 5,8 5))"},
+    {"c17_mline_all_collapsed", "MULTILINESTRING((2 2,2 2),(1 5,1 5))"},
+    {"c17_mline_one_collapsed", "MULTILINESTRING((2 2,2 2))"},
+    {"c17_mline_one_collapsed_one_empty", "MULTILINESTRING((2 2,2 2),EMPTY,(0 0,1 1))"},
+    {"c17_selftouch_ring_hole", "POLYGON((5 0,10 0,10 10,0 10,0 0,5 0,3 4,7 4,5 0))"},
+    {"c17_selftouch_ring_hole_2", "POLYGON((0 0,10 0,10 10,5 10,4 6,6 6,5 10,0 10,0 0))"},
+    {"c17_exverted_hole", "POLYGON((0 0,20 0,20 20,0 20,0 0),(5 5,10 10,15 5,15 15,10 10,5 15,5 5))"},
+    {"c17_inverted_shell_multi", "MULTIPOLYGON(((5 0,10 0,10 10,0 10,0 0,5 0,3 4,7 4,5 0)),((20 0,24 0,24 4,20 0)))"},
+    {"c17_hole_touching_shell_twice", "POLYGON((0 0,10 0,10 10,0 10,0 0),(5 0,8 5,5 10,2 5,5 0))"},
+};
+static const int N_C17_TEMPLATES = (int) (sizeof(C17_TEMPLATES) / sizeof(C17_TEMPLATES[0]));
 
 static std::string field(const std::string& s, const std::string& k) { size_t p = s.find(k + "="); if (p == std::string::npos) return ""; size_t q = s.find(' ', p); return s.substr(p + k.size() + 1, q == std::string::npos ? std::string::npos : q - p - k.size() - 1); }
 
@@ -86,7 +115,7 @@ int main(int argc, char** argv) {
                     GEOSGeometry* wg = GEOSGeomFromWKT_r(h, wkt.c_str()); if (!wg) { std::cout << "invalid\n"; continue; } toks = dumpGeom((Geometry*) wg); GEOSGeom_destroy_r(h, wg); }
                 else { std::vector<std::string> parts; size_t p = 0; while (true) { size_t q = line.find(" | ", p); if (q == std::string::npos) { parts.push_back(line.substr(p)); break; } parts.push_back(line.substr(p, q - p)); p = q + 3; }
                     if (parts.size() < 4) { std::cout << "invalid\n"; continue; }
-                    toks = parts[1]; method = field(parts[3], "method") == "L" ? 0 : 1; keep = field(parts[3], "keep") == "1" ? 1 : 0; }
+                    toks = parts[1]; method = field(parts[3], "method") == "L" ? 0 : 1; std::string kr = field(parts[3], "kraw"); if (kr.empty()) kr = field(parts[3], "keep"); try { keep = std::stoi(kr); } catch (...) { keep = 0; } }
                 HGeo hg = parseHLine(toks); auto g = buildH(hg, gf);
                 std::cout << runOne(h, g.get(), dumpGeom(g.get()), method, keep, nullptr, hasNonFinite(hg)) << "\n";
             } catch (std::exception& e) { std::cout << "invalid " << e.what() << "\n"; }
@@ -98,7 +127,8 @@ int main(int argc, char** argv) {
     long emitted = 0;
     while (emitted < n) {
         std::string family; HGeo hg;
-        try { hg = gen.generate(family); } catch (std::exception& e) { out.count("generator_error"); continue; }
+        try { if (r.chance(9)) { const Tmpl& t = C17_TEMPLATES[r.below(N_C17_TEMPLATES)]; hg = gen.fromWkt(t.wkt); family = t.family; } else hg = gen.generate(family); }
+        catch (std::exception& e) { out.count("generator_error"); continue; }
         Xform t = gen.gg.xform(); if (r.chance(40)) { t = Xform{}; t.sym = (int) r.below(8); }
         applyX(hg, t);
         std::unique_ptr<Geometry> g; bool loose = false;
@@ -107,7 +137,10 @@ int main(int argc, char** argv) {
         out.count("family_" + family); out.count(std::string("type_") + g->getGeometryType());
         out.count(std::string("input_valid_") + (GEOSisValid_r(h, (GEOSGeometry*) g.get()) == 1 ? "1" : "0"));
         std::string toks = dumpGeom(g.get()); bool nf = hasNonFinite(hg);
-        static const int cfg[3][2] = {{0, 0}, {1, 0}, {1, 1}};
+        // keepCollapsed is an int in the C API: any non-zero value asks for keeping; now and then one other than 1 is used
+        static const int otherKeep[] = {2, -1, 16, 255, -128};
+        int cfg[3][2] = {{0, 0}, {1, 0}, {1, 1}};
+        if (r.chance(12)) cfg[2][1] = otherKeep[r.below(5)];
         for (auto& c : cfg) {
             { FILE* cf = std::fopen((std::string(argv[4]) + ".current").c_str(), "w"); if (cf) { std::fprintf(cf, "M | %s | ? | method=%s keep=%d\n", toks.c_str(), c[0] == 0 ? "L" : "S", c[1]); std::fclose(cf); } }
             out.emit(runOne(h, g.get(), toks, c[0], c[1], &out, nf), "ok"); emitted++; }
